@@ -8,8 +8,8 @@ mech = "\n".join(f"  - {m.get('name','')} @ {m.get('where','')}" for m in p['anc
 print(f"""You are helping to evaluate a verification framework for the Go library goplus/gogen (a Go code-generation toolkit with a stack-based CodeBuilder that type-checks expressions, matches overloads and generics, folds constants, and prints Go source). Your job is to act as a *realistic bug seeder*.
 
 You have your own scratch git worktree of the repository at {wt} (work ONLY there; never touch /repo or /verif, and do not read anything under /verif). The sandbox has no network. Go is installed (go1.23). Run the repository's tests from the worktree exactly like this (GOFLAGS/GOPROXY must be unset, or one test that matches `go list` error text fails):
-    cd {wt} && env -u GOFLAGS -u GOPROXY go test -mod=mod -vet=off -count=1 -timeout 25m ./...
-The whole suite takes 6-15 minutes (the machine is shared; be patient, run it in the background with output to a file if you like, and do not run it more often than you need). Use targeted `go test -run` for quick iterations, and `go build ./...` to check compilation.
+    cd {wt} && nice -n 15 env -u GOFLAGS -u GOPROXY GOMAXPROCS=6 go test -mod=mod -vet=off -count=1 -timeout 60m ./...
+The whole suite takes 10-25 minutes (the machine is shared with other work: ALWAYS use the nice/GOMAXPROCS prefix shown, never run two suites at the same time, run it in the background with output to a file, and do not run it more often than you need — ideally once per change, after targeted tests already pass). Use targeted `go test -run` for quick iterations, and `go build ./...` to check compilation.
 
 The semantic property to break:
 
